@@ -25,8 +25,8 @@ guard treats a backslash as an escape if and only if the rule does (today neithe
 (`TOP 4294967296` must be an error, not 0).
 (j) a string literal that is never closed is not a string: the tokenizer's parse_string_literal returns a StringLiteral only on a path that consumed the closing quote.
 """
-FLOOR = 10
-REQUIRED = ["C17.a1", "C17.a2", "C17.b", "C17.c", "C17.d", "C17.e", "C17.f", "C17.g", "C17.h", "C17.i", "C17.j"]
+FLOOR = 11
+REQUIRED = ["C17.a1", "C17.a2", "C17.b", "C17.c", "C17.d", "C17.e", "C17.f", "C17.g", "C17.h", "C17.i", "C17.j", "C17.k"]
 
 PANIC = re.compile(r"(option::Option::(unwrap|expect|unwrap_unchecked)|result::Result::(unwrap|expect|unwrap_err|expect_err|unwrap_unchecked)|"
                    r"panicking::(panic\w*|unreachable_display|assert_failed\w*|begin_panic\w*)|rt::(begin_panic|panic_fmt)\w*)$")
@@ -719,6 +719,31 @@ def run(ctx):
         inst.sites = [sp(b, bb) for bb, v in rets]
         return bad
     ctx.run("C17.j", "K2 CUT", "tokenizer::parse_string_literal", "a string literal token exists only if the closing quote was read", j_)
+
+    def k_(inst):
+        """Every text command is tokenized before its grammar runs, and a character without an arm of its own becomes the <INVALID>
+        word that rejects the whole command. A STORE payload is JSON: the characters a JSON number is made of besides digits and
+        letters (`-`, `+`, `.`) must each have an arm of their own in tokenize."""
+        bad = []
+        b = F.fn("command::parser::tokenizer::tokenize")
+        sw = None
+        for i_ in sorted(b.live_blocks()):
+            if b.blocks[i_]["t"]["t"] != "switch":
+                continue
+            si = b.switch_info(i_)
+            if si and si.get("kind") == "int" and si.get("ty") == "char" and len(si.get("edges", {})) >= 8:
+                sw = (i_, si)
+                break
+        if sw is None:
+            raise AnchorMissing("the match on the next character in tokenize")
+        i_, si = sw
+        have = {int(k) for k in si["edges"]}
+        inst.sites = [sp(b, i_), "characters with their own arm: %s" % "".join(sorted(chr(c) for c in have if 32 < c < 127))]
+        for ch in "-+.":
+            if ord(ch) not in have:
+                bad.append(("json-number-char-unhandled:%s" % ch, "tokenize has no arm for %r: a STORE payload holding a JSON number written with it (1e+300) is rejected as 'invalid character during tokenization' although the value conforms to the schema" % ch, sp(b, i_)))
+        return bad
+    ctx.run("C17.k", "K6 TABLE", "command::parser::tokenizer::tokenize", "every character of a JSON number is a known token character", k_)
 
 
 # cycles whose overflow was reproduced against the real code (DESIGN.md §4c); others are reported as notes until triaged
